@@ -43,3 +43,19 @@ Theorem C17_operand_terminals :
   /\ term_SRC_DEST_REG = ["/[xyz]/"] /\ rule_op = ["_reg_variant"; "imm ""iV"""; "number"; "identifier"]
   /\ rule_reg_variant = ["""HEX_REG_ALIAS_"" reg_alias"; "new_reg ""N"""; "reg ""V"""; "explicit_reg"].
 Proof. repeat split; reflexivity. Qed.
+
+(* The reference for "the C structure": a precedence-climbing parser GENERATED from the regenerated tower
+   (lib/CParse.v); printing any expression with minimal parentheses and parsing it back is the identity, hence
+   the printed form determines the structure (no ambiguity), for every expression, no bound on size or nesting.
+   K7 compares Lark's tree with this parser's result on every generated token list. *)
+From RZ.lib Require Import CParse.
+From RZ.proofs Require Import CParseProofs.
+Theorem C17_reference_table_is_tower : wf_table c11_table = true /\ table_nodup c11_table = true /\ nbin c11_table = 10%nat.
+Proof. split; [exact c11_table_wf | split; [exact c11_table_nodup | apply c11_table_is_tower]]. Qed.
+Theorem C17_reference_roundtrip : forall e, wf_expr c11_table e = true -> parse_c11 (print c11_table e) = Some e.
+Proof. exact parse_c11_print. Qed.
+Print Assumptions C17_reference_roundtrip.
+Theorem C17_reference_unambiguous : forall e1 e2, wf_expr c11_table e1 = true -> wf_expr c11_table e2 = true ->
+  print c11_table e1 = print c11_table e2 -> e1 = e2.
+Proof. exact print_c11_injective. Qed.
+Print Assumptions C17_reference_unambiguous.
